@@ -381,6 +381,8 @@ func runC03more(c *Ctx) {
 	// ---------------------------------------------------------------- C03.11
 	c.Rule("C03.11", "response-side adapters read only the response direction's compression cells", 10)
 	checkDirectionCells(c, "C03.11", true)
+	// ---------------------------------------------------------------- C03.13
+	runC03NoWriteAfterEnd(c)
 	// ---------------------------------------------------------------- C03.12
 	c.Rule("C03.12", "an enveloped unit is decompressed exactly when its own envelope's compressed flag says so", 2)
 	checkUnitFlagDecompress(c, "C03.12")
@@ -701,4 +703,121 @@ func isHasErrCond(v ssa.Value) bool {
 		}
 	}
 	return false
+}
+
+// runC03NoWriteAfterEnd: C03.13 (defects D20, D21).  When the handler returns, the response
+// writer finalises the body writer behind it (Write(nil), Close).  If the response has already
+// ended by then - an error was reported, the hold-back buffer dropped and returned to the pool -
+// that finalisation must not push anything into the sink: it would follow the end-of-stream, or
+// land in a pooled buffer another RPC may own.  Every sink write reachable from a Close of a
+// writer adapter, and the final Write(nil) itself, is dominated by 'the response writer's error
+// cell is nil'.
+func runC03NoWriteAfterEnd(c *Ctx) {
+	p := c.P
+	c.Rule("C03.13", "finalising the body writer pushes nothing into the sink once the response has ended", 3)
+	rwErrF := p.MustField("responseWriter", "err")
+	rwSinkF := p.MustField("responseWriter", "w")
+	notEnded := func(in ssa.Instruction) bool {
+		for _, f := range p.FactsAtInter(in.Block()) {
+			cmp, ok := f.AsCmp()
+			if !ok || cmp.Op != token.EQL || !IsNilConst(cmp.Y) {
+				continue
+			}
+			if LoadedField(cmp.X) == rwErrF {
+				return true
+			}
+		}
+		return false
+	}
+	for _, tn := range []string{"envelopingWriter", "transformingWriter"} {
+		named := p.MustNamed(tn)
+		pt := types.NewPointer(named)
+		sinkF := p.Field(tn, "w")
+		if sinkF == nil {
+			fatalf("anchor=%s.w (sink) not found", tn)
+		}
+		// direct sink writes: invoke Write on the sink field, or Buffer.WriteTo(sink)
+		direct := func(in ssa.Instruction) bool {
+			ci, ok := in.(ssa.CallInstruction)
+			if !ok {
+				return false
+			}
+			cc := ci.Common()
+			if cc.IsInvoke() && N(cc.Method) == "Write" && LoadedField(cc.Value) == sinkF {
+				return true
+			}
+			if IsCallTo(ci, "(*bytes.Buffer).WriteTo") && len(cc.Args) == 2 {
+				for _, l := range Origins(cc.Args[1]) {
+					if l.Kind == "load" && l.Field == sinkF {
+						return true
+					}
+				}
+			}
+			return false
+		}
+		writes := map[*ssa.Function]int{} // 1 yes, 2 no / in progress
+		var writesSink func(fn *ssa.Function) bool
+		writesSink = func(fn *ssa.Function) bool {
+			switch writes[fn] {
+			case 1:
+				return true
+			case 2:
+				return false
+			}
+			writes[fn] = 2
+			res := false
+			ForEachInstr(fn, func(in ssa.Instruction) {
+				if direct(in) {
+					res = true
+				}
+				if ci, ok := in.(ssa.CallInstruction); ok {
+					if sc := ci.Common().StaticCallee(); sc != nil && sc.Signature.Recv() != nil && types.Identical(sc.Signature.Recv().Type(), pt) && writesSink(sc) {
+						res = true
+					}
+				}
+			})
+			if res {
+				writes[fn] = 1
+			}
+			return res
+		}
+		cl := p.MethodOf(pt, "Close")
+		if cl == nil {
+			fatalf("anchor=%s.Close not found", tn)
+		}
+		n := 0
+		ForEachInstr(cl, func(in ssa.Instruction) {
+			isW := direct(in)
+			if ci, ok := in.(ssa.CallInstruction); ok && !isW {
+				if sc := ci.Common().StaticCallee(); sc != nil && sc.Signature.Recv() != nil && types.Identical(sc.Signature.Recv().Type(), pt) && writesSink(sc) {
+					isW = true
+				}
+			}
+			if !isW {
+				return
+			}
+			n++
+			c.Check(notEnded(in), "C03.13", FuncName(cl), "close-writes-only-before-end", in.Pos(),
+				"Close pushes data into the sink only while the response writer's error cell is nil",
+				"Close writes into its sink without testing whether the response has already ended: after an error was reported the bytes follow the end-of-stream, or land in the hold-back buffer that was already returned to the pool")
+		})
+		if n == 0 {
+			c.Trivial("C03.13", FuncName(cl), "close-writes-only-before-end", cl.Pos(), "Close writes nothing into its sink")
+		}
+	}
+	// the final Write(nil) of responseWriter.close
+	rwClose := p.MustFunc("(*responseWriter).close")
+	nW := 0
+	ForEachInstr(rwClose, func(in ssa.Instruction) {
+		ci, ok := in.(ssa.CallInstruction)
+		if !ok || !ci.Common().IsInvoke() || N(ci.Common().Method) != "Write" || LoadedField(ci.Common().Value) != rwSinkF {
+			return
+		}
+		nW++
+		c.Check(notEnded(in), "C03.13", FuncName(rwClose), "final-write-only-before-end", in.Pos(),
+			"the finalising Write(nil) happens only while the response has not ended", "responseWriter.close triggers the body writer's final writes although the response may already have ended")
+	})
+	if nW == 0 {
+		c.Trivial("C03.13", FuncName(rwClose), "final-write-only-before-end", rwClose.Pos(), "no finalising write")
+	}
 }
